@@ -25,14 +25,17 @@ Section WF.
 Variable d : dfa.
 Hypothesis Hwf : dfa_wf d = true.
 
-Lemma epilogue_good rec src s t qc adv : (forall q, tree_all leaf_good (rec q) = true) ->
-  tree_all leaf_good (epilogue d rec src s t qc adv) = true.
+Lemma epilogue_good rec src s t qc adv brk : (forall q, tree_all leaf_good (rec q) = true) ->
+  tree_all leaf_good (epilogue d rec src s t qc adv brk) = true.
 Proof.
   intros Hr. unfold epilogue, source_return.
-  destruct (t_fall t). { destruct (t_tgt t); [apply Hr|]. cbn. destruct (accepting d src); [reflexivity|]. destruct (is_end s); reflexivity. }
-  destruct (immediate_done d t); [reflexivity|].
-  destruct (is_end s). { cbn. destruct (accepting d src); reflexivity. }
-  destruct (t_tgt t); [reflexivity|]. cbn. destruct (accepting d src); reflexivity.
+  destruct (brk || match t_tgt t with Some _ => true | None => false end).
+  - destruct (t_fall t); [apply Hr|].
+    destruct (immediate_done d t); [reflexivity|].
+    destruct (is_end s); [cbn; destruct (accepting d src); reflexivity | reflexivity].
+  - destruct (t_fall t). { cbn. destruct (accepting d src); [reflexivity|]. destruct (is_end s); reflexivity. }
+    destruct (immediate_done d t); [reflexivity|].
+    destruct (is_end s); cbn; destruct (accepting d src); reflexivity.
 Qed.
 
 Lemma run_acts_good rec src s t : (forall q, tree_all leaf_good (rec q) = true) ->
